@@ -10,10 +10,39 @@ use crate::world::*;
 #[derive(Default)]
 pub struct C17 {
     later_epoch: bool,
+    gimage_ok: bool,
 }
 
 impl Oracle for C17 {
     fn after_step(&mut self, w: &mut World, rec: &StepRecord) {
+        if let Op::GroupImageDownload { g, tamper, .. } = &rec.step.op {
+            if rec.class != "gimage_ok" && rec.class != "gimage_err" {
+                return;
+            }
+            let node = rec.step.node;
+            w.probe("group_image_download");
+            let ok = rec.class == "gimage_ok";
+            let equal = rec.outcome.contains("equal=true");
+            let mut v: Vec<(&str, String)> = vec![];
+            if ok && !equal {
+                v.push(("group-image-decrypted-to-different-bytes", format!("g{g} n{node}: {}", rec.outcome)));
+            }
+            if *tamper != 0 {
+                w.probe("group_image_tampered_download");
+                if ok {
+                    v.push(("tampered-group-image-accepted", format!("g{g} n{node}: {}", rec.outcome)));
+                }
+            } else if !ok {
+                // the record names a blob that was uploaded with exactly these parameters
+                v.push(("group-image-does-not-decrypt-with-published-parameters", format!("g{g} n{node}: {}", rec.outcome)));
+            } else {
+                self.gimage_ok = true;
+            }
+            for (clause, detail) in v {
+                w.violations.push(Violation { property: "C17".into(), clause: clause.into(), step: Some(rec.step.id), node: Some(node), detail, known: None });
+            }
+            return;
+        }
         let Op::MediaDownload { msg, tamper, .. } = &rec.step.op else { return };
         if rec.class != "media_ok" && rec.class != "media_err" {
             return;
@@ -81,7 +110,7 @@ impl Oracle for C17 {
         }
     }
     fn nontrivial(&self, _w: &World) -> bool {
-        self.later_epoch
+        self.later_epoch || self.gimage_ok
     }
 }
 
@@ -90,6 +119,14 @@ fn mk(_cfg: &RunCfg) -> Box<dyn Oracle> {
 }
 
 fn media_hook(gn: &mut Gen, w: &mut World) -> Option<Step> {
+    if !w.group_blobs.is_empty() && gn.rng().chance(1, 2) {
+        let g = gn.rng().below(w.groups.len().max(1) as u64) as usize;
+        let holders: Vec<usize> = (0..w.nodes.len()).filter(|n| w.gview(*n, g).is_some()).collect();
+        let node = if holders.is_empty() || gn.rng().chance(1, 6) { gn.rng().below(w.nodes.len() as u64) as usize } else { holders[gn.rng().below(holders.len() as u64) as usize] };
+        let tamper = if gn.rng().chance(1, 2) { 0 } else { 1 + gn.rng().below(5) as u8 };
+        let seed = gn.rng().next() as u32;
+        return Some(gn.mk(w, node, 0, Op::GroupImageDownload { g, tamper, seed }));
+    }
     let media: Vec<EvRef> = w.blobs.keys().copied().collect();
     if media.is_empty() {
         return None;
@@ -116,12 +153,12 @@ pub fn spec() -> CheckSpec {
     CheckSpec {
         id: "C17",
         level: "exploration",
-        rule: "worlds in which senders encrypt payloads (0 B, 1 B, 31 B, 1 KiB, 70 KB; text/plain, application/pdf, audio/mpeg, video/mp4; distinct file names) with EncryptedMediaManager, store the ciphertext in a simulated blob store and announce it with an imeta message; 0..n commits later - with the announcing message processed before or after those commits, after rollbacks, restarts, evictions and joins - every member, ex-member and later joiner downloads and decrypts, with a seeded fault on half of the downloads (nonce bit, file name, MIME type, content hash, scheme version in the reference; bit flip or truncation of the blob); oracle: a member of the sending epoch that holds the announcing message obtains exactly the original bytes at any later epoch, a client that was not a member of that epoch obtains nothing, any tamper yields an error, never different bytes; non-trivial = a decryption attempted at a later epoch than the encryption; distinct = delivery signature. The universal (all positions / all payloads) tamper-evidence and key-separation clauses are statements about a pure function and are only exercised as far as these runs reach (DESIGN.md §9); group images are not exercised",
+        rule: "worlds in which senders encrypt payloads (0 B, 1 B, 31 B, 1 KiB, 70 KB; text/plain, application/pdf, audio/mpeg, video/mp4 and seeded valid PNG / JPEG / GIF / WebP images, which the library validates against the bytes and re-encodes; distinct file names) with EncryptedMediaManager, store the ciphertext in a simulated blob store and announce it with an imeta message; 0..n commits later - with the announcing message processed before or after those commits, after rollbacks, restarts, evictions and joins - every member, ex-member and later joiner downloads and decrypts, with a seeded fault on half of the downloads (nonce bit, file name, MIME type, content hash, scheme version in the reference; bit flip or truncation of the blob); oracle: a member of the sending epoch that holds the announcing message obtains exactly the original bytes at any later epoch, a client that was not a member of that epoch obtains nothing, any tamper yields an error, never different bytes; non-trivial = a decryption attempted at a later epoch than the encryption; distinct = delivery signature. The universal (all positions / all payloads) tamper-evidence and key-separation clauses are statements about a pure function and are only exercised as far as these runs reach (DESIGN.md §9); group images: admins encrypt seeded images (current seed format and the legacy direct-key format) and publish hash / key / nonce with a group-data commit; any client holding the group decrypts the blob named by its OWN stored record - it must obtain the uploader's bytes, and a flipped bit in blob, key or nonce, a truncated blob, or a damaged blob offered without the expected hash must fail",
         variants: vec![
             Variant { name: "mem", profile: Profile { backend: BackendMix::Memory, ..base.clone() }, runs_quick: 300, runs_thorough: 15000, oracle: mk, guarded: false, configure_gen: Some(conf), post: None, custom: None },
             Variant { name: "mixed", profile: Profile { backend: BackendMix::Mixed, allow_restart: true, ..base.clone() }, runs_quick: 100, runs_thorough: 5000, oracle: mk, guarded: false, configure_gen: Some(conf), post: None, custom: None },
         ],
-        assumptions: vec!["image MIME families (which are validated against the file bytes and re-encoded) and group images are not generated", "the blob store is a map; its faults are bit flips and truncation"],
+        assumptions: vec!["for image families the reference plaintext is what the sender itself decrypts (the library re-encodes images)", "the blob store is a map; its faults are bit flips and truncation"],
         real: super::REAL.to_vec(),
         stubs: vec!["Blossom blob server (map with bit-flip / truncation faults)", "relay/app layer", "wall clock", "entropy"],
     }
